@@ -77,6 +77,7 @@ def _check_main(run, P):
     from . import c10
     c10.calls(run, P, "C06.flagrule")
     c10.flag(run, P, "C06.flagrule")
+    run.do(simplify_callers, run, P, "C06.flagrule")
 
     m = P.module(MOD)
     run.do(_splice_and_pop, run, P, m)
@@ -86,6 +87,28 @@ def _check_main(run, P):
     run.do(_handlers, run, P)
     run.do(_identity, run, P)
     run.do(_flat, run, P)
+
+
+def simplify_callers(run, P, rule):
+    """Merging by the text of guards is sound for the trees the lowering builds
+    (guards are flags assigned once, C10); nothing else may feed the simplifier."""
+    sites = []
+    for m in P.repo_modules():
+        for f in m.functions.values():
+            for x in ast.walk(f.node):
+                if isinstance(x, ast.Call) and (dotted(x.func) or "").split(".")[-1] == "simplify_ast" \
+                        and f.name != "simplify_ast":
+                    if not any(x is y for g_ in f.nested.values() for y in ast.walk(g_.node)):
+                        sites.append((f, x))
+    if not sites:
+        raise AnalysisError("simplify_ast has no caller")
+    for f, x in sites:
+        run.ob(rule, f, x, f.fq == f"{MOD}.create_ast_from_phase",
+               construct=f"simplify_ast is applied in {f.qualname}",
+               why="applied to the output of a rewriting pass (or to any tree whose guards "
+                   "are arbitrary conditions) it fuses neighbours with equal guards although "
+                   "the first writes a variable the guard reads: 'x <- x-5 if x>0; y <- f(y) "
+                   "if x>0' runs the second statement with the stale test")
 
 
 # {{{ deque rules
